@@ -40,6 +40,14 @@ def random_record(rng, n=None, nfeat=None, alphabet="ACGT", order_ops=False):
             else:
                 parts.append(FeatureLocation(a, n, strand=st))
                 parts.append(FeatureLocation(0, a + L - n, strand=st))
+        if order_ops and rng.random() < 0.2:
+            # open ends (GenBank `<a..>b`) on some parts
+            from Bio.SeqFeature import AfterPosition, BeforePosition
+            j = rng.randrange(len(parts))
+            pj = parts[j]
+            if int(pj.start) < int(pj.end):
+                parts[j] = FeatureLocation(BeforePosition(int(pj.start)) if rng.random() < 0.7 else pj.start,
+                                           AfterPosition(int(pj.end)) if rng.random() < 0.7 else pj.end, strand=pj.strand)
         # (a quarter of the compound locations are GenBank `order(...)` rather than `join(...)`)
         loc = parts[0] if len(parts) == 1 else CompoundLocation(parts, operator="order" if (order_ops and rng.random() < 0.25) else "join")
         ftype = rng.choice(["CDS", "misc_feature", "source", "promoter"])
